@@ -69,6 +69,11 @@ def forEachGo {σ ρ α : Type} (bind : σ → α → σ) (body : σ → Out σ 
 def forEach {σ ρ α : Type} (xs : σ → List α) (bind : σ → α → σ) (body : σ → Out σ ρ) : σ → Out σ ρ :=
   fun s => forEachGo bind body (xs s) s
 
+/-- `copy(dst[lo:], src)` for `lo ≤ len(dst)`: the first `len(dst) - lo` bytes of `src` (all of it when it fits) overwrite `dst`
+    from `lo` on; `dst` keeps its length, nothing is reported when `src` is truncated -/
+def copyAt (dst : Bytes) (lo : Nat) (src : Bytes) : Bytes :=
+  dst.take lo ++ src.take (dst.length - lo) ++ dst.drop (lo + (src.take (dst.length - lo)).length)
+
 /-- `p[i]` -/
 @[inline] def rd (p : Bytes) (i : Nat) : BitVec 8 := (p.getD i 0).toBitVec
 /-- the value stored by `dest[i] = b` -/
